@@ -53,13 +53,20 @@ def undouble : List Char → List Char
 
 def allDigits (s : List Char) : Bool := s ≠ [] && s.all Char.isDigit
 
+/-- `[^\W\d][\w\.]*` on ASCII: a letter or `_`, then letters, digits, `_`, `.` -/
+def plainSheet (s : List Char) : Bool :=
+  match s with
+  | c :: r => (c.isAlpha || c == '_') && r.all (fun d => d.isAlphanum || d == '_' || d == '.')
+  | [] => false
+
 /-- `_build_sheet_id(sheet, directory, filename)` for ASCII names -/
 def buildSheetId (sheet dir file : List Char) : List Char :=
   if file ≠ [] then
     if allDigits file then ['['] ++ file ++ [']'] ++ (undouble sheet).map Char.toUpper
     else ['\''] ++ (if dir ≠ [] ∧ dir.getLast? ≠ some '/' then dir ++ ['/'] else dir) ++ ['['] ++ file ++ [']']
           ++ (undouble sheet).map Char.toUpper ++ ['\'']
-  else if (undouble sheet).map Char.toUpper |>.contains ' ' then
+  else if (undouble sheet) ≠ [] ∧ !plainSheet ((undouble sheet).map Char.toUpper) then
+    -- only a plain word (`[^\W\d][\w\.]*`, ASCII here) is read back unquoted (`fix:` commit)
     ['\''] ++ (undouble sheet).map Char.toUpper ++ ['\'']
   else (undouble sheet).map Char.toUpper
 
